@@ -8,14 +8,14 @@ import (
 
 // GenOpts steers RandomOps.
 type GenOpts struct {
-	Styles      bool // generate AllowStyles rules
-	ScriptStyle bool // try to allow script/style (C05)
-	NoComments  bool
-	NoRewriter  bool
-	NoRawText   bool     // never allow raw-text elements
-	NoURLValRe  bool     // no value pattern on attributes the sanitiser rewrites (C20 class)
-	Base        []string // candidate base constructors (default: NewPolicy mostly)
-	MaxRules    int
+	Styles       bool // generate AllowStyles rules
+	ScriptStyle  bool // try to allow script/style (C05)
+	NoComments   bool
+	NoRewriter   bool
+	NoRawText    bool     // never allow raw-text elements
+	NoURLValRe   bool     // no value pattern on attributes the sanitiser rewrites (C20 class)
+	Base         []string // candidate base constructors (default: NewPolicy mostly)
+	MaxRules     int
 	NoDefaultCSS bool // do not use default handlers (keeps C14's backtracking away)
 }
 
